@@ -46,7 +46,9 @@ def goals(topo, slot, getv):
 
 
 def work(item):
-    tj, symtype, compact, seed, timeout_ms = item
+    tj, symtype, compact, seed, timeout_ms = item[:5]
+    hist = item[5] if len(item) > 5 else "fresh"
+    builder = netcheck.history_builders()[hist]
     topo = T_.Topo.from_json(tj)
     rng = random.Random(seed)
     tag = f"{symtype}/c{compact}"
@@ -55,7 +57,7 @@ def work(item):
     numeric = netcheck.casadi_numeric_for(topo)
     D = [netcheck.apply_numeric(c, numeric) for c in ref_metanet.admissible_domain(topo)]
     try:
-        c = compiled.compile_terms(topo, symtype, numeric, compact, True)
+        c = compiled.compile_terms(topo, symtype, numeric, compact, True, builder=builder)
     except compiled.LayoutMismatch as e:
         acc.exec_violation(PID, topo, f"casadi[{tag}]", "array", f"layout: {e}", extra={"numeric": numeric, "compact": compact, "more_out": True})
         return acc.done()
@@ -140,6 +142,11 @@ def main():
             for c in (0, 1, 2):
                 if args.thorough or (k + c + (st == "MX")) % 2 == 0 or c == 0:
                     items.append((t.to_json(), st, c, args.seed + k, timeout))
+    for k, t in enumerate(topos):
+        # the same identities on networks that were stepped before and then had their attachments / links replaced
+        hs = ["decoy-attachments-replaced", "decoy-links-replaced", "reads-interleaved"]
+        for h in (hs if args.thorough else [hs[k % 3]]):
+            items.append((t.to_json(), ("SX", "MX")[k % 2], k % 3, args.seed + k, timeout, h))
     if args.thorough:
         for k, t in enumerate(families.E(3, 4) + families.random_topos(args.seed, 30)):
             items.append((t.to_json(), ("SX", "MX")[k % 2], k % 3, args.seed + k, 60000))
